@@ -9,7 +9,7 @@
    one list of local vertex numbers per local slot. *)
 From Coq Require Import List Arith ZArith Bool.
 Import ListNotations.
-Require Import Base.C11_Unique.
+Require Import Base.C11_Unique Base.Corr.
 
 (* t[ix][:, e] : the vertices of local slot ix of cell c *)
 Definition slotv (ix c : list nat) : list nat := map (fun i => nth i c 0) ix.
@@ -93,6 +93,15 @@ Definition boundary_edges (facet_idx edge_idx t2f t2e : list (list nat)) (f2t : 
          then [nth c (nth es t2e []) 0] else []) (seq 0 (length edge_idx))) bf).
 
 Definition interior_edges (nedges : nat) (be : list nat) : list nat := setdiff_range nedges be.
+
+(* table-level side condition of "f2e numbers mesh.edges": every (facet slot, boundary-refdom slot) composes to an edge slot
+   of the cell and every edge slot arises that way, up to reversal *)
+Definition compose (fs b : list nat) : list nat := map (fun i => nth i fs 0) b.
+Definition same2 (a b : list nat) : bool := nats_eqb a b || nats_eqb a (rev b).
+Definition compose_ok (facet_idx bnd edge_idx : list (list nat)) : bool :=
+  forallb (fun fs => forallb (fun b => forallb (fun i => i <? length fs) b &&
+                                       existsb (fun es => same2 (compose fs b) es) edge_idx) bnd) facet_idx &&
+  forallb (fun es => existsb (fun fs => existsb (fun b => same2 (compose fs b) es) bnd) facet_idx) edge_idx.
 
 (* the whole family of tables of one mesh, as the correspondence compares them:
    facet_idx / edge_idx : refdom tables; bnd_idx : facets of the boundary refdom (for f2e); sortf : the sort flag *)
